@@ -49,7 +49,7 @@ def cases(draw):
     if late:
         ops[0] = ['input', draw(st.integers(1, 4))]
     return {'schema': schema_js, 'pop': pop, 'ops': ops, 'perm': list(draw(st.permutations(list(range(nstm))))),
-            'sorted_prefix': draw(st.booleans()), 'late_tables': late}
+            'sorted_prefix': draw(st.booleans()), 'late_tables': late, 'empty_index': draw(st.integers(0, 3)) == 0}
 
 
 def statements_of(case):
@@ -76,7 +76,16 @@ def statements_of(case):
         order = [i for i in order if i < ncls or i >= nsch] + [i for i in order if ncls <= i < nsch]
     else:
         order = [i for i in order if i < ncls] + [i for i in order if i >= ncls]
-    return [stm[i] for i in order]
+    out = [stm[i] for i in order]
+    if case.get('empty_index'):
+        # an identifier declared over no attribute at all (accepted, declares nothing) right before a real one
+        import re
+        for k, text in enumerate(out):
+            mo = re.match(r'CREATE UNIQUE INDEX \S+ ON (\S+)', text)
+            if mo:
+                out.insert(k, 'CREATE UNIQUE INDEX I0 ON %s ();' % mo.group(1))
+                break
+    return out
 
 
 def mutate(m, what, a, b, c, case):
